@@ -81,6 +81,14 @@ func (p *provider) Init(ctx context.Context) error {
 // Shutdown is a part o linker.Shutdowner
 func (p *provider) Shutdown() {
 	close(p.clsdCh)
+
+	// drop the whole cache: idle cursors are closed here, busy ones by their Release()
+	p.lock.Lock()
+	mc := p.maxCurs
+	p.maxCurs = 0
+	p.sweepBySize()
+	p.maxCurs = mc
+	p.lock.Unlock()
 }
 
 // GetOrCreate gets existing or creates a new cursor. if state.Id is 0, the new cursor will be always created.
